@@ -318,6 +318,17 @@ type Options struct {
 	ListSubs  bool
 }
 
+// defaultBudget is the process CPU time one case may take: 20 s, and 120 s in the sanitizer
+// builds, where the garbage collector's share alone (all Ps, a heap full of run-time built types
+// that are never freed) can exceed 20 s late in a shard.
+func (w *Worker) defaultBudget() time.Duration {
+	switch w.Mode {
+	case "race", "asan":
+		return 120 * time.Second
+	}
+	return 20 * time.Second
+}
+
 func (w *Worker) watchdog() {
 	for {
 		time.Sleep(200 * time.Millisecond)
@@ -383,7 +394,7 @@ func RunWorker(o Options) int {
 	}
 	w := &Worker{Prop: o.Prop, Mode: o.Mode, Seed: o.Seed, Tier: o.Tier, Shard: o.Shard, NShards: o.NShards,
 		out: bufio.NewWriterSize(os.Stdout, 1<<16), counts: map[string]int64{}, distinct: map[uint64]struct{}{}, distFile: o.DistFile}
-	w.cpuBudget.Store(int64(20 * time.Second))
+	w.cpuBudget.Store(int64(w.defaultBudget()))
 	if o.NShards <= 0 {
 		w.NShards = 1
 	}
@@ -405,7 +416,7 @@ func RunWorker(o Options) int {
 	runCase := func(s *Sub, idx int, replay bool) {
 		c := &Case{W: w, Prop: o.Prop, Sub: s.Name, Index: idx, Seed: o.Seed, Tier: o.Tier, Mode: o.Mode, Replay: replay,
 			Rng: NewRand(Mix(Mix(o.Seed, HashString(o.Prop+"/"+s.Name)), uint64(idx)))}
-		w.cpuBudget.Store(int64(20 * time.Second))
+		w.cpuBudget.Store(int64(w.defaultBudget()))
 		w.evals++
 		func() {
 			defer func() {
